@@ -7,14 +7,16 @@
 //          only by INV -- ONE arbitrary operation behaves as the reference model says and re-establishes INV.
 //
 // INV: head/tail/next/previous form one consistent chain holding exactly the model's callbacks in order; no removed node is reachable;
-//      1 <= node.counter <= currentCounter for every node; every node is owned only by its neighbours/head/tail (use counts).
-// A counterexample from a pre-state no real history reaches would mean INV is too weak; it is not a finding.
+//      1 <= node.counter <= currentCounter for every node.
+// A counterexample from a pre-state no real history reaches would mean INV is too weak; it is not a finding. For the same reason INV itself
+// is checked with vf_require (a failure is INCONCLUSIVE, the invariant is mine, not the property's) and a second operation follows the step,
+// so that a representation the step broke shows in BEHAVIOUR (vf_assert) -- that, not INV, is what C01 states.
 #include "common.h"
 
 #ifndef NMAX
 #define NMAX 4
 #endif
-#define MAXN (NMAX + 2)
+#define MAXN (NMAX + 3)
 
 static Trace g_tr;
 struct Cb {
@@ -30,38 +32,54 @@ struct Model { uint32_t id[MAXN]; int cnt; };
 
 enum { COV_STEP_FROM_FULL = 0, COV_WRAP_IN_STEP, COV_INSERT_MID, COV_REMOVE_MID, COV_STALE_OPERAND, COV_N };
 
+// INV is a statement about THIS representation, written by me: where it fails, the run decides nothing about C01 (vf_require -> INCONCLUSIVE,
+// never a VIOLATION). What IS the property -- what an invocation / enumeration shows after the step -- is asserted with vf_assert.
 static void check_inv(CL & l, const Model & m, int aid)
 {
 	// chain consistency and content
 	auto node = l.head; decltype(node) prev; int n = 0;
 	const uint32_t cur = l.currentCounter.value;
 	while(node && n <= MAXN) {
-		vf_assert(node->previous == prev, aid);                         // link symmetry
-		vf_assert(node->counter != 0, aid + 1);                          // no removed node reachable
-		vf_assert(node->counter <= cur, aid + 2);                        // generation numbers never ahead of the list's counter
-		if(n < m.cnt) vf_assert(node->callback.id == m.id[n], aid + 3);  // content and order
-		// owners: head or predecessor's next, tail or successor's previous, and our two local copies
-		long owners = 1 /*node*/ + (node == l.head ? 1 : 0) + (node == l.tail ? 1 : 0) + (prev ? 1 : 0) + (node->next ? 1 : 0);
-		vf_assert(node.use_count() == owners, aid + 4);
+		vf_require(node->previous == prev, aid);                         // link symmetry
+		vf_require(node->counter != 0, aid + 1);                          // no removed node reachable
+		vf_require(node->counter <= cur, aid + 2);                        // generation numbers never ahead of the list's counter
+		if(n < m.cnt) vf_require(node->callback.id == m.id[n], aid + 3);  // content and order
 		prev = node; node = node->next; n++;
 	}
-	vf_assert(n == m.cnt, aid + 5);
-	vf_assert(l.tail == prev, aid + 6);
-	vf_assert((m.cnt == 0) == (! l.head), aid + 7);
+	vf_require(n == m.cnt, aid + 5);
+	vf_require(l.tail == prev, aid + 6);
+	vf_require((m.cnt == 0) == (! l.head), aid + 7);
 }
+
+static void observe(CL & l, const Model & m, int aid)
+{
+	uint32_t a = vf_nondet_u32(), b = vf_nondet_u32();
+	g_tr.clear(); l(a, b);
+	vf_assert(g_tr.n == m.cnt, aid);
+	for(int i = 0; i < m.cnt && i < g_tr.n; i++) { vf_assert(g_tr.e[i].id == m.id[i], aid + 1); vf_assert(g_tr.e[i].a == a && g_tr.e[i].b == b, aid + 2); }
+	vf_assert(l.empty() == (m.cnt == 0), aid + 3);
+	{ int c = 0; l.forEach([&](const Cb &) { ++c; }); vf_assert(c == m.cnt, aid + 4); }
+}
+
+#ifndef STEPS
+#define STEPS 2
+#endif
+#define MAXH (NMAX + STEPS + 2)
 
 extern "C" void harness()
 {
 	g_tr.clear();
 	CL * l = new CL(); Model m{};
-	CL::Handle hs[MAXN]; CL::Handle stale, empty;
+	CL::Handle hs[MAXH]; int pos[MAXH]; int nh = 0;                     // every handle handed out; pos = index in the model, -1 = not in the list
 	check_inv(*l, m, 500);                                               // base case
 	// ---- an arbitrary INV-state with n nodes
 	int n = (int)vf_choose(NMAX + 1);
 	{	// a stale handle: refers to a node that was removed earlier in the history
-		stale = l->append(Cb(0xdeadu)); l->remove(stale);
+		CL::Handle stale = l->append(Cb(0xdeadu)); l->remove(stale);
+		hs[nh] = stale; pos[nh] = -1; nh++;
+		hs[nh] = CL::Handle(); pos[nh] = -1; nh++;                       // and the empty handle
 	}
-	for(int i = 0; i < n; i++) { uint32_t id = vf_nondet_u32(); hs[i] = l->append(Cb(id)); m.id[m.cnt++] = id; }
+	for(int i = 0; i < n; i++) { uint32_t id = vf_nondet_u32(); hs[nh] = l->append(Cb(id)); pos[nh] = m.cnt; nh++; m.id[m.cnt++] = id; }
 	{
 		uint32_t cur = vf_nondet_u32();
 		vf_assume(cur >= 1);
@@ -72,42 +90,41 @@ extern "C" void harness()
 	}
 	check_inv(*l, m, 510);
 	if(n == NMAX) vf_cover(COV_STEP_FROM_FULL);
-	// ---- one arbitrary operation
-	unsigned nh = (unsigned)n + 2;                                       // live handles, the stale one, the empty one
-	unsigned op = vf_choose(3 + 2 * nh);
-	auto handle_of = [&](unsigned k) -> CL::Handle { if(k < (unsigned)n) return hs[k]; vf_cover(COV_STALE_OPERAND); return k == (unsigned)n ? stale : empty; };
-	uint32_t nid = vf_nondet_u32();
-	if(op == 0) { l->append(Cb(nid)); m.id[m.cnt++] = nid; }
-	else if(op == 1) { l->prepend(Cb(nid)); for(int k = m.cnt; k > 0; k--) m.id[k] = m.id[k - 1]; m.id[0] = nid; m.cnt++; }
-	else if(op == 2) {
-		bool r = eventpp::removeListener(*l, Cb(nid));
-		int victim = -1; for(int i = 0; i < m.cnt && victim < 0; i++) if(m.id[i] == nid) victim = i;
-		vf_assert(r == (victim >= 0), 520);
-		if(victim >= 0) { for(int k = victim; k < m.cnt - 1; k++) m.id[k] = m.id[k + 1]; m.cnt--; }
+	// ---- STEPS arbitrary operations; the FIRST one is the inductive step (INV re-established after it), the following ones make a broken
+	//      representation observable through behaviour
+	for(int step = 0; step < STEPS; step++) {
+		unsigned op = vf_choose(3 + 2 * (unsigned)nh);
+		uint32_t nid = vf_nondet_u32();
+		auto inserted = [&](int p, CL::Handle h) { for(int k = 0; k < nh; k++) if(pos[k] >= p) pos[k]++; for(int j = m.cnt; j > p; j--) m.id[j] = m.id[j - 1]; m.id[p] = nid; m.cnt++; hs[nh] = h; pos[nh] = p; nh++; };
+		auto removed = [&](int p) { for(int k = 0; k < nh; k++) { if(pos[k] == p) pos[k] = -1; else if(pos[k] > p) pos[k]--; } for(int j = p; j < m.cnt - 1; j++) m.id[j] = m.id[j + 1]; m.cnt--; };
+		if(op == 0) { auto h = l->append(Cb(nid)); inserted(m.cnt, h); }
+		else if(op == 1) { auto h = l->prepend(Cb(nid)); inserted(0, h); }
+		else if(op == 2) {
+			bool r = eventpp::removeListener(*l, Cb(nid));
+			int victim = -1; for(int i = 0; i < m.cnt && victim < 0; i++) if(m.id[i] == nid) victim = i;
+			vf_assert(r == (victim >= 0), 520);
+			if(victim >= 0) removed(victim);
+		}
+		else if(op < 3 + (unsigned)nh) {
+			unsigned k = op - 3; int p = pos[k] >= 0 ? pos[k] : m.cnt;
+			if(pos[k] > 0) vf_cover(COV_INSERT_MID);
+			if(pos[k] < 0) vf_cover(COV_STALE_OPERAND);
+			auto h = l->insert(Cb(nid), hs[k]); inserted(p, h);
+		}
+		else {
+			unsigned k = op - 3 - (unsigned)nh;
+			bool r = l->remove(hs[k]);
+			vf_assert(r == (pos[k] >= 0), 521);
+			if(pos[k] < 0) vf_cover(COV_STALE_OPERAND);
+			if(pos[k] >= 0) { if(pos[k] > 0 && pos[k] < m.cnt - 1) vf_cover(COV_REMOVE_MID); removed(pos[k]); }
+		}
+		// the abstraction commutes: the list shows exactly the model's content
+		observe(*l, m, 540);
+		for(int k = 0; k < nh; k++) vf_assert(l->ownsHandle(hs[k]) == (pos[k] >= 0), 545);
+		if(step == 0) check_inv(*l, m, 530);                             // INV re-established: the induction goes through
 	}
-	else if(op < 3 + nh) {
-		unsigned k = op - 3; int pos = k < (unsigned)n ? (int)k : m.cnt;
-		if(k < (unsigned)n && k > 0) vf_cover(COV_INSERT_MID);
-		l->insert(Cb(nid), handle_of(k));
-		for(int j = m.cnt; j > pos; j--) m.id[j] = m.id[j - 1]; m.id[pos] = nid; m.cnt++;
-	}
-	else {
-		unsigned k = op - 3 - nh;
-		bool r = l->remove(handle_of(k));
-		vf_assert(r == (k < (unsigned)n), 521);
-		if(k < (unsigned)n) { if(k > 0 && (int)k < n - 1) vf_cover(COV_REMOVE_MID); for(int j = (int)k; j < m.cnt - 1; j++) m.id[j] = m.id[j + 1]; m.cnt--; hs[k] = CL::Handle(); }
-	}
-	// ---- INV re-established, and the abstraction commutes: the list shows exactly the model's content
-	check_inv(*l, m, 530);
-	uint32_t a = vf_nondet_u32(), b = vf_nondet_u32();
-	g_tr.clear(); (*l)(a, b);
-	vf_assert(g_tr.n == m.cnt, 540);
-	for(int i = 0; i < m.cnt && i < g_tr.n; i++) { vf_assert(g_tr.e[i].id == m.id[i], 541); vf_assert(g_tr.e[i].a == a && g_tr.e[i].b == b, 542); }
-	vf_assert(l->empty() == (m.cnt == 0), 543);
-	{ int c = 0; l->forEach([&](const Cb &) { ++c; }); vf_assert(c == m.cnt, 544); }
 	vf_obs(1, (uint64_t)m.cnt);
-	for(int i = 0; i < MAXN; i++) hs[i] = CL::Handle();
-	stale = CL::Handle();
+	for(int i = 0; i < MAXH; i++) hs[i] = CL::Handle();
 	delete l;
 	vf_end();
 }
